@@ -1451,8 +1451,18 @@ impl<T: Payload> World<T> {
     }
 
     fn do_append_value(&mut self, p: Key, k: Key, val: u32, slow: bool, out: &mut StepOut) {
-        let pid = self.idk(p);
+        let mut pid = self.idk(p);
         let ptomb = self.m.is_tomb(p);
+        if ptomb && p % 3 == 0 {
+            // the removed parent named by the id that get_node_id builds from its slot
+            let arena = &self.arena;
+            if let Ok(Some(x)) = catch(|| arena.get(pid).and_then(|n| arena.get_node_id(n))) {
+                if slot_of(x) == slot_of(pid) {
+                    pid = x;
+                    self.stats.probe("tombstone_named_via_get_node_id");
+                }
+            }
+        }
         out.rel = if ptomb { Rel::TombA } else { Rel::NA };
         let cb = self.arena.count();
         let snapshot = self.arena.clone();
@@ -1485,6 +1495,13 @@ impl<T: Payload> World<T> {
                                 cb,
                                 self.arena.count()
                             ),
+                        ));
+                        // a refused call that allocated: a removed slot was used up (or the arena
+                        // grew) for a node nobody got - "no slot is lost" (C07)
+                        out.viols.push(viol(
+                            "C07",
+                            "refused_call_allocated",
+                            format!("append_value on a removed parent panicked after allocating (count {} -> {})", cb, self.arena.count()),
                         ));
                         self.diverged = true;
                     }
